@@ -40,6 +40,10 @@ func makeC06(seed uint64) *c06Case {
 		// without the embedded IDL a file may have nothing at all to generate: half of these runs
 		// get such a file (instead of the injection whose turn it is)
 		want = progs.InjectionIndex("file-that-renders-nothing")
+		if r.Bool() {
+			// … or a constant whose package is needed for nothing but a value that is written out in place
+			want = progs.InjectionIndex("default-from-a-constant-of-a-package-used-for-nothing-else")
+		}
 	}
 	for try := 0; try < 40 && cs.inj.Name == ""; try++ {
 		cfg := c06Config(r)
